@@ -35,7 +35,7 @@ fn leb(b: &[u8], at: usize) -> Option<(u32, usize)> {
 
 // @props C05 C06
 // @fns InstructionReader::next: all 256 opcodes, every decoder arm, the get_u8 / get_u8_array / get_u16 / get_var_u32 macros, out_of_bounds_access_error; operand layout of the jump, constant-load, Function and StringPush instructions against the byte layout the compiler's encoders are checked to produce (c05_varint_encode, c05_jump_*, c05_string_format_flags)
-// @bound buffers of 0..=9 arbitrary bytes, reader at ip 0; var-ints at most 5 bytes long (bytes 5 and 6 carry no continuation bit), which is what push_var_u32 emits
+// @bound buffers of 0..=9 arbitrary bytes, reader at ip 0; bytes 5 and 6 carry no continuation bit, so var-ints are at most 4 bytes after op + register (5 with the first-byte form of SequenceStart): constant indices below 2^28 (the fifth var-int byte is covered on the encoder side by c05_varint_encode)
 // @assume std::fmt::format stubbed (error messages are not the subject); var-int operands are at most 5 bytes (longer ones are never emitted by the compiler and would overflow the decoder's shift)
 // @timeout 5400
 // @mem 36
@@ -121,7 +121,7 @@ fn c05_decode_total() {
     kani::cover!(matches!(&instruction, Some(Instruction::Error { .. })) && len == N, "an Error instruction on a full buffer");
     kani::cover!(matches!(&instruction, Some(Instruction::JumpBack { .. })), "a JumpBack decodes");
     kani::cover!(matches!(&instruction, Some(Instruction::StringPush { format_options: Some(o), .. }) if o.min_width.is_some() && o.representation.is_some()), "a StringPush with width and representation decodes");
-    kani::cover!(matches!(&instruction, Some(Instruction::LoadInt { constant, .. }) if u32::from(*constant) > 1 << 28), "a five-byte constant index decodes");
+    kani::cover!(matches!(&instruction, Some(Instruction::LoadInt { constant, .. }) if u32::from(*constant) > 1 << 21), "a four-byte constant index decodes");
     std::mem::forget(instruction);
     std::mem::forget(reader);
 }
